@@ -146,6 +146,9 @@ func GenTree(prop string, r *sim.Rand, tier string) sim.Script {
 	if r.Chance(1, 10) {
 		s.Ver = int64(r.U64() >> 2)
 	}
+	if prop == "C03" && r.Chance(1, 6) {
+		return genNested(s, r)
+	}
 	profile := []string{"tiny", "tiny", "fixed", "mixed", "dense"}[r.Intn(5)]
 	long := tier == "thorough" && r.Chance(1, 40)
 	nOps := 1 + r.Intn(40)
@@ -230,7 +233,11 @@ func GenTree(prop string, r *sim.Rand, tier string) sim.Script {
 			}
 		}
 	}
-	lastVal := map[string][]byte{}
+	lastVals := map[string][][]byte{} // the last two distinct values written to a path
+	hot := ""
+	if c.children && r.Chance(1, 8) {
+		hot = c.pool[r.Intn(len(c.pool))]
+	}
 	open := []int{0} // open trie ids
 	parent := map[int]int{0: -1}
 	next := 1
@@ -254,11 +261,18 @@ func GenTree(prop string, r *sim.Rand, tier string) sim.Script {
 				s.Ops = append(s.Ops, Op{K: "insmax", T: t, P: p, V: []byte(fmt.Sprintf("V%d", n)), N: int64([]int{r.Intn(12), r.Intn(12), r.Intn(80), r.Intn(700)}[r.Intn(4)])})
 				break
 			}
-			v := genValue(r, c.valProfile, n)
-			if old, ok := lastVal[p]; ok && (r.Chance(1, 5) || (prop == "C03" && r.Chance(1, 4))) {
-				v = old // re-insert exactly what this path held before (in this trie or any other of the tree)
+			if hot != "" && r.Chance(2, 3) {
+				p = hot // hot-key runs: most writes go to one path, alternating between a few values
 			}
-			lastVal[p] = v
+			v := genValue(r, c.valProfile, n)
+			if olds := lastVals[p]; len(olds) > 0 && (r.Chance(1, 5) || (prop == "C03" && r.Chance(1, 4)) || (p == hot && r.Chance(2, 3))) {
+				v = olds[r.Intn(len(olds))] // re-insert exactly what this path held before (in this trie or any other of the tree)
+			} else {
+				lastVals[p] = append(lastVals[p], v)
+				if len(lastVals[p]) > 2 {
+					lastVals[p] = lastVals[p][1:]
+				}
+			}
 			s.Ops = append(s.Ops, Op{K: "ins", T: t, P: p, V: v})
 		case 1:
 			s.Ops = append(s.Ops, Op{K: "del", T: t, P: p})
@@ -364,6 +378,56 @@ func GenTree(prop string, r *sim.Rand, tier string) sim.Script {
 			op.P = "otherver"
 		}
 		s.Ops = append(s.Ops, op)
+	}
+	return s
+}
+
+// genNested: a block state, a transaction on it, and a sequence of sub-transactions of that transaction (each
+// a child of the transaction, merged or discarded before the next one starts) that keep rewriting a few paths with
+// a few values; then the transaction is merged into the block (or discarded) and another one may follow.
+func genNested(s *TreeScript, r *sim.Rand) sim.Script {
+	pool := pathPool(r, []string{"tiny", "fixed", "dense"}[r.Intn(3)], 2+r.Intn(4))
+	vals := [][]byte{[]byte("x"), []byte("n"), []byte("m")}[:2+r.Intn(2)]
+	write := func(t int) Op {
+		p := pool[r.Intn(len(pool))]
+		if r.Chance(1, 6) {
+			return Op{K: "del", T: t, P: p}
+		}
+		return Op{K: "ins", T: t, P: p, V: vals[r.Intn(len(vals))]}
+	}
+	for i := 1 + r.Intn(4); i > 0; i-- {
+		s.Ops = append(s.Ops, write(0))
+	}
+	next := 1
+	for txn := 1 + r.Intn(3); txn > 0; txn-- {
+		P := next
+		next++
+		s.Ops = append(s.Ops, Op{K: "child", T: 0})
+		for sub := 1 + r.Intn(5); sub > 0; sub-- {
+			if r.Chance(1, 5) {
+				s.Ops = append(s.Ops, write(P)) // directly in the transaction
+				continue
+			}
+			c := next
+			next++
+			s.Ops = append(s.Ops, Op{K: "child", T: P})
+			for i := 1 + r.Intn(2); i > 0; i-- {
+				s.Ops = append(s.Ops, write(c))
+			}
+			if r.Chance(5, 6) {
+				s.Ops = append(s.Ops, Op{K: "merge", T: c})
+			} else {
+				s.Ops = append(s.Ops, Op{K: "discard", T: c})
+			}
+		}
+		if r.Chance(4, 5) {
+			s.Ops = append(s.Ops, Op{K: "merge", T: P})
+		} else {
+			s.Ops = append(s.Ops, Op{K: "discard", T: P})
+		}
+		if r.Chance(1, 2) {
+			s.Ops = append(s.Ops, write(0))
+		}
 	}
 	return s
 }
